@@ -276,7 +276,13 @@ outer:
 // the byte-asymmetric baseline, then boundaries and byte-distinct patterns, in-domain values
 // only (DESIGN §4.1a "Domains"). No two elements are equal. The fixed-value kind's alphabet is
 // the Go content of the field (which encoding must ignore).
-func KindAlphabet(k Kind) []KV {
+func KindAlphabet(k Kind) []KV { return kindAlphabet(k, false) }
+
+// KindDeepAlphabet extends KindAlphabet to the full domain where that is small: every HH:mm
+// 00:00..24:00 and every value of each IPv4 octet (the other kinds are unchanged).
+func KindDeepAlphabet(k Kind) []KV { return kindAlphabet(k, true) }
+
+func kindAlphabet(k Kind, deep bool) []KV {
 	var out []KV
 	switch k {
 	case KUint8:
@@ -300,6 +306,9 @@ func KindAlphabet(k Kind) []KV {
 		base := []int{10, 20, 30, 40}
 		for pos := 0; pos < 4; pos++ {
 			for x := 0; x < 256; x++ {
+				if !deep && x > 2 && x < 253 && x != 9 && x != 10 && x != 99 && x != 100 && x != 127 && x != 128 && x != 0x55 && x != 0xaa {
+					continue
+				}
 				b := append([]int{}, base...)
 				b[pos] = x
 				out = append(out, KV{B: b})
@@ -380,15 +389,16 @@ func KindAlphabet(k Kind) []KV {
 			out = append(out, KV{T: []int{9, m, 8}}, KV{T: []int{9, 7, m}})
 		}
 	case KHHmm:
-		out = append(out, KV{T: []int{12, 34}})
+		out = append(out, KV{T: []int{12, 34}}, KV{T: []int{0, 0}}, KV{T: []int{24, 0}}, KV{T: []int{23, 59}})
 		for h := 0; h < 24; h++ {
 			for m := 0; m < 60; m++ {
-				out = append(out, KV{T: []int{h, m}})
+				if deep || h == 9 || m == 7 {
+					out = append(out, KV{T: []int{h, m}})
+				}
 			}
 		}
-		out = append(out, KV{T: []int{24, 0}})
 	case KDatePtr, KDateTimePtr, KHHmmPtr:
-		base := KindAlphabet(k.Base())
+		base := kindAlphabet(k.Base(), deep)
 		out = append(out, base[0], KV{Nil: true})
 		out = append(out, base[1:]...)
 	}
